@@ -133,6 +133,25 @@ def handle_failures(pid, lane, failures, agg, env=None):
             m = agg["monitors"].setdefault(mon, {"observed": 0, "judged": 0, "unjudged": 0, "violations": 0})
             m["violations"] += len(san)
             continue
+        if f.get("hang"):
+            h = f["hang"]
+            mon = pid.lower() + ".termination"
+            op = "?"
+            try:
+                r = h.get("rule")
+                op = list(r.keys())[0] if isinstance(r, dict) and len(r) == 1 else type(r).__name__
+            except Exception:
+                pass
+            agg["violations"].append({"monitor": mon, "sig": "no-result-within-cpu-budget:%s" % op, "rule": h.get("rule"), "data": h.get("data"),
+                                      "expected": "a value or an error within %s s of CPU time" % (h.get("budget_ns", 0) / 1e9),
+                                      "got": {"cpu_ns_in_call": h.get("cpu_ns_in_call"), "lane": lane},
+                                      "note": "the call was still running after its CPU-time budget (bounded restatement of 'terminates'); the shard was stopped",
+                                      "lane": lane, "shard": f["shard"], "count": 1, "direct": False})
+            m = agg["monitors"].setdefault(mon, {"observed": 0, "judged": 0, "unjudged": 0, "violations": 0})
+            m["observed"] += 1
+            m["judged"] += 1
+            m["violations"] += 1
+            continue
         if f["rc"] is None:
             raise O.Inconclusive("lane %s shard %d: wall-clock watchdog fired after %.0fs (not a verdict)" % (lane, f["shard"], f["wall_s"]))
         if "HARNESS-PANIC" in err or f["rc"] == 2:
@@ -161,7 +180,9 @@ def run_plan(pid, tier, seed, agg):
     meta = {"rule": plan["rule"], "assumptions": plan["assumptions"]}
     relchk = O.build_lane("relchk")
     meta["selftest"] = O.selftest(relchk)
+    meta["inconclusive"] = []
     for lane, nshards, scale in plan["inproc"][tier]:
+      try:
         t0 = time.time()
         if lane == "miri":
             O.build_miri()
@@ -181,8 +202,13 @@ def run_plan(pid, tier, seed, agg):
                 "asan": "AddressSanitizer (nightly)", "tsan": "ThreadSanitizer (nightly, build-std)"}.get(lane, lane)
         O.lane_record(agg, lane, tool, reports, failures, time.time() - t0)
         handle_failures(pid, lane, failures, agg, env)
+      except O.Inconclusive as e:
+        meta["inconclusive"].append("lane %s: %s" % (lane, e))
     for fn in plan["proc"][tier]:
+      try:
         fn(pid, tier, seed, agg, meta)
+      except O.Inconclusive as e:
+        meta["inconclusive"].append("%s: %s" % (fn.__name__, e))
     return meta
 
 
